@@ -989,6 +989,37 @@ def _inline_new_temps(fn, ref_names, params, stats, key):
         if found is None:
             continue
         block, idx, st = found
+        if isinstance(st.value, ast.Lambda):
+            # a NEW local lambda that is only ever called: beta-reduce its calls (the lambda reads its free variables when called, which is
+            # where the substituted body now stands)
+            lam = st.value
+            a = lam.args
+            if a.vararg or a.kwarg or a.kwonlyargs or a.defaults or a.posonlyargs:
+                continue
+            params_ = [x.arg for x in a.args]
+            pm_ = {}
+            for n in ast.walk(fn):
+                for c in ast.iter_child_nodes(n):
+                    pm_[id(c)] = n
+            loads_ = [n for n in ast.walk(fn) if isinstance(n, ast.Name) and n.id == v and isinstance(n.ctx, ast.Load)]
+            calls_ = [pm_.get(id(n)) for n in loads_]
+            if not loads_ or any(not (isinstance(c, ast.Call) and c.func is n and len(c.args) == len(params_) and not c.keywords and all(_simple(x) for x in c.args)) for c, n in zip(calls_, loads_)):
+                continue
+            if any(order[id(n)] < order[id(st)] for n in loads_):
+                continue
+
+            class B(ast.NodeTransformer):
+                def visit_Call(self, c):
+                    self.generic_visit(c)
+                    if isinstance(c.func, ast.Name) and c.func.id == v and len(c.args) == len(params_):
+                        return ast.copy_location(_Subst(dict(zip(params_, c.args))).visit(copy.deepcopy(lam.body)), c)
+                    return c
+            for s2 in block[idx + 1:]:
+                B().visit(s2)
+            del block[idx]
+            ast.fix_missing_locations(fn)
+            done += 1
+            continue
         pos = order[id(st)]
         loads = [n for n in ast.walk(fn) if isinstance(n, ast.Name) and n.id == v and isinstance(n.ctx, ast.Load)]
         # the temporary must be a NAME FOR A VALUE: never the handle of an object that is modified through it ...
